@@ -415,7 +415,11 @@ class Parser:
             return self.token_error('Cannot use {} as a value.')
 
         if dest is OpCode.PUSH:
-            code_gen.push(value)
+            if move_inst is OpCode.MOVEQ:
+                # A constant, which may be a string: never a variable's name.
+                code_gen.add_instruction(OpCode.PUSHQ, value)
+            else:
+                code_gen.push(value)
         elif value is not dest:
             code_gen.add_instruction(move_inst, value, dest)
 
